@@ -8,11 +8,8 @@ use frost_core::{Identifier, VerifyingKey};
 pub fn noop_barrier<T: ?Sized>(_v: &T) {}
 
 /// Stub for `alloc::fmt::format` (error paths build messages through core::fmt, expensive for CBMC).
-pub fn stub_format(_args: core::fmt::Arguments<'_>) -> alloc_string::String {
-    alloc_string::String::new()
-}
-pub mod alloc_string {
-    pub use std::string::String;
+pub fn stub_format(_args: core::fmt::Arguments<'_>) -> String {
+    String::new()
 }
 
 /// Any Toy251 scalar (0..=250).
